@@ -193,9 +193,18 @@ def h_retransmissions(n):
 
 def h_outbound_late(n):
     """outbound requests whose answer arrives only after the caller's timeout"""
+    return _outbound_late(n, False)
+
+
+def _outbound_late(n, raising):
     from diameter.message.commands import CreditControlRequest
     h = Hist(cfg2())
     cid = h.established()
+    if raising:
+        def bad_handler(message, _app=h.r.apps[0]):
+            h.r.unexpected.append((_app.idx, message))
+            raise RuntimeError("handle_answer failed")
+        h.r.apps[0].handle_answer = bad_handler
     for i in range(n):
         m = CreditControlRequest()
         m.session_id = "late;%d" % i
@@ -210,6 +219,25 @@ def h_outbound_late(n):
         h.tick(3)
         for c, x in sent:
             h.do(dict(ev="recv", cid=c, frames=[NS.build_message(dict(kind="ans", hbh=x["hbh"], e2e=x["e2e"]))]))
+    return h
+
+
+def h_self_closing_pairs(n):
+    """two connections close themselves (garbage instead of a header) in the same instant, N times"""
+    h = Hist(cfg2())
+    for _ in range(n):
+        a = h.accept()
+        b = h.accept()
+        h.r.remotes[a].feed(bytes(40))
+        h.r.remotes[b].feed(bytes(40))
+        h.r.sim.run()
+        h.r.sim.advance(1)
+    return h
+
+
+def h_outbound_late_raising(n):
+    """like h_outbound_late, but the application's unexpected-answer handler raises"""
+    h = h_outbound_late.__wrapped__(n, raising=True) if hasattr(h_outbound_late, "__wrapped__") else _outbound_late(n, True)
     return h
 
 
@@ -391,6 +419,8 @@ def h_stopping(n):
 
 KINDS = [("inbound request/answer", h_inbound, True), ("outbound request/answer", h_outbound, True),
          ("rejected retransmissions", h_retransmissions, True), ("outbound request answered after the timeout", h_outbound_late, True),
+         ("outbound request answered after the timeout, unexpected-answer handler raises", h_outbound_late_raising, True),
+         ("two connections close themselves at once", h_self_closing_pairs, False),
          ("DWR from the peer", h_dwr_in, True), ("DWR from the node", h_dwr_out, True),
          ("rejected requests", h_rejected, True), ("connection closed by the peer", h_conn_peer_closes, True),
          ("connection ended by DPR", h_conn_dpr, True), ("connection closed by the node (watchdog)", h_conn_watchdog, True),
